@@ -156,7 +156,6 @@ class FieldToOrder:
 
 CHECK_ONLY_METHODS = (
     IdentityMethod,
-    TypeCheckIdentityMethod,
     CollectionCheckOnlyMethod,
     MappingCheckOnlyMethod,
 )
@@ -166,7 +165,16 @@ def check_only(method: SerializationMethod) -> bool:
     """If the method transforms the data"""
     return (
         isinstance(method, CHECK_ONLY_METHODS)
-        or (isinstance(method, TypeCheckMethod) and check_only(method.method))
+        # AnyFallback serializes the mistyped object, i.e. transforms the data
+        or (
+            isinstance(method, TypeCheckIdentityMethod)
+            and isinstance(method.fallback, NoFallback)
+        )
+        or (
+            isinstance(method, TypeCheckMethod)
+            and isinstance(method.fallback, NoFallback)
+            and check_only(method.method)
+        )
         or (isinstance(method, OptionalMethod) and check_only(method.value_method))
         or (
             isinstance(method, UnionMethod)
